@@ -6,22 +6,18 @@
    interleaving AND every answer of the outside world (normalisation, filters, seen-store, server
    responses), so "forall ls" below is "for every schedule and every site behaviour".
 
-   The two hypotheses are the per-seed theorems about one pipeline pass, stated in
-   Stage/PassSpec.v (every stage function returns without panic on a tree satisfying the seed
-   invariant; the finisher feeds back exactly the trees with pending nodes).  They are closed in
-   Props/C01 as soon as Stage/PassProofs.v is complete; until then C01 is proved RELATIVE to them
-   (and the correspondence check exercises exactly those two statements pass by pass against the
-   real stage workers). *)
+   The per-seed facts about one pipeline pass (every stage function returns without panic on a
+   tree satisfying the seed invariant; the finisher feeds back exactly the trees with pending
+   nodes) are proved in Stage/PassProofs.v / PassClosed.v and restated below. *)
 From Coq Require Import Permutation.
-From ZenoV Require Import Tree.Item Tree.ItemSpec Stage.Pass Stage.PassSpec Pipe.PipeLts Pipe.PipeProofs.
+From ZenoV Require Import Tree.Item Tree.ItemSpec Stage.Pass Stage.PassSpec Stage.PassClosed Pipe.PipeLts Pipe.PipeProofs Pipe.PipeClosed.
 Open Scope N_scope.
 
 (* Safety, in every reachable state: no stage panics; no seed is reported finished twice; a seed is
    reported only when no node of its tree awaits fetching or post-processing; every queue row is
    queued, in flight or finished - exactly one of the three (never dropped, never duplicated); the
    reactor's table is exactly the set of seeds in flight and equals the tokens in use, at most W. *)
-Theorem C01_pipeline_safe : seed0_inv_stmt -> pass_preserves_stmt ->
-  forall w c rows ls s,
+Theorem C01_pipeline_safe : forall w c rows ls s,
   NoDup (map row_id rows) -> run (init w c rows) ls = Some s ->
   p_panicked s = false
   /\ NoDup (map fst (p_finished s))
@@ -30,25 +26,56 @@ Theorem C01_pipeline_safe : seed0_inv_stmt -> pass_preserves_stmt ->
   /\ NoDup (map row_id (p_src s) ++ flight_ids s ++ map fst (p_finished s))
   /\ Permutation (flight_ids s) (p_table s)
   /\ p_tokens s = length (p_table s) /\ (p_tokens s <= w)%nat.
-Proof. exact pipeline_safe. Qed.
+Proof. exact pipeline_safe_closed. Qed.
 Print Assumptions C01_pipeline_safe.
 
 (* No deadlock: while a row is queued or a seed is in flight, some step is enabled - whatever the
    interleaving so far (in particular the finisher's feedback send never blocks for good). *)
-Theorem C01_deadlock_free : seed0_inv_stmt -> pass_preserves_stmt ->
-  forall w c rows ls s,
+Theorem C01_deadlock_free : forall w c rows ls s,
   NoDup (map row_id rows) -> (1 <= w)%nat -> run (init w c rows) ls = Some s ->
   (p_src s <> [] \/ p_table s <> []) -> exists l s', step s l = Some s'.
-Proof. exact pipeline_deadlock_free. Qed.
+Proof. exact pipeline_deadlock_free_closed. Qed.
 Print Assumptions C01_deadlock_free.
 
 (* Every execution that cannot be extended ends with every row reported finished exactly once,
    an empty queue, an empty reactor and all tokens free. *)
-Theorem C01_all_finished_exactly_once_at_quiescence : seed0_inv_stmt -> pass_preserves_stmt ->
-  forall w c rows ls s,
+Theorem C01_all_finished_exactly_once_at_quiescence : forall w c rows ls s,
   NoDup (map row_id rows) -> (1 <= w)%nat -> run (init w c rows) ls = Some s ->
   (forall l, step s l = None) ->
   p_src s = [] /\ p_table s = [] /\ p_tokens s = 0%nat /\ in_flight s = []
   /\ Permutation (map row_id rows) (map fst (p_finished s)).
-Proof. exact pipeline_quiescent. Qed.
+Proof. exact pipeline_quiescent_closed. Qed.
 Print Assumptions C01_all_finished_exactly_once_at_quiescence.
+
+(* ---- one seed's whole life, for every list of per-pass oracles (= every site behaviour, every
+   seen-store answer, every filter outcome) ---- *)
+
+(* no stage ever panics *)
+Theorem C01_no_stage_panics : forall c os u hops w, run_passes c os (seed0 u hops) <> Panic w.
+Proof. exact a_no_panic. Qed.
+Print Assumptions C01_no_stage_panics.
+
+(* at every stage boundary of every pass the tree has unique ids and passes CheckConsistency *)
+Theorem C01_wellformed_at_every_stage_boundary : forall c os u hops x,
+  In x (run_trees c os (seed0 u hops)) -> NoDup (ids x) /\ check_consistency x = 0%nat.
+Proof. exact b_wellformed_at_every_boundary. Qed.
+Print Assumptions C01_wellformed_at_every_stage_boundary.
+
+(* the finisher reports the seed finished if and only if no node of its tree awaits fetching or
+   post-processing; otherwise the seed is fed back, satisfies the invariant again and its tree is
+   exactly one level deeper *)
+Theorem C01_finish_iff_nothing_pending : forall c os1 o u hops t next,
+  run_passes c os1 (seed0 u hops) = Ok (t, next, DFeedback) ->
+  exists t1 t2 t3 next' t4 d,
+    pre_worker o t = Ok t1 /\ arch_worker o t1 = Ok t2 /\ post_worker c o t2 next = Ok (t3, next')
+    /\ fin_worker t3 = Ok (t4, d) /\ pass c o (t, next) = Ok (t4, next', d)
+    /\ (d = DFinish <-> no_pending t3 = true) /\ no_pending t4 = no_pending t3
+    /\ (d = DFeedback -> Inv t4 next' /\ max_depth t4 = S (max_depth t)).
+Proof. exact c_finish_iff_nothing_pending. Qed.
+Print Assumptions C01_finish_iff_nothing_pending.
+
+(* within one seed's tree no URL is fetched by two different non-seed nodes, over its whole life *)
+Theorem C01_fetch_once : forall c os u hops,
+  NoDup (map fst (run_fetched c os (seed0 u hops))) /\ NoDup (map snd (run_fetched c os (seed0 u hops))).
+Proof. exact e_fetch_once. Qed.
+Print Assumptions C01_fetch_once.
